@@ -393,8 +393,8 @@ theorem hoverPosting_node {j : Journal} {tx : Transaction} {p : Posting} {c : Cu
       · exact Or.inl (findTag_derived hh)
     · exact Or.inl (findTag_derived hh)
 
-theorem hoverTx_node {j : Journal} {tx : Transaction} {c : Cur} {h : Hit}
-    (ht : tx ∈ j.transactions) (hh : hoverTx c tx = some h) : hitNode j h := by
+theorem hoverTx_node {lns : List Txt} {j : Journal} {tx : Transaction} {c : Cur} {h : Hit}
+    (ht : tx ∈ j.transactions) (hh : hoverTx lns c tx = some h) : hitNode j h := by
   unfold hoverTx at hh
   split at hh
   · simp at hh; subst hh
@@ -410,8 +410,8 @@ theorem hoverTx_node {j : Journal} {tx : Transaction} {c : Cur} {h : Hit}
       · obtain ⟨p, hp, hpp⟩ := List.exists_of_findSome?_eq_some hh
         exact hoverPosting_node ht hp hpp
 
-theorem findElement_node {j : Journal} {c : Cur} {h : Hit}
-    (hh : findElementAtPosition j c = some h) : hitNode j h := by
+theorem findElement_node {lns : List Txt} {j : Journal} {c : Cur} {h : Hit}
+    (hh : findElementAtPosition lns j c = some h) : hitNode j h := by
   obtain ⟨tx, ht, htx⟩ := List.exists_of_findSome?_eq_some hh
   exact hoverTx_node ht htx
 
@@ -486,8 +486,8 @@ theorem defDirective_node {j : Journal} {d : Directive} {c : Cur} {h : Hit}
   | year y r => simp [defDirective] at hh
   | defaultCommodity sy f r => simp [defDirective] at hh
 
-theorem findDefinitionTargetR_node {j : Journal} {c : Cur} {h : Hit}
-    (hh : findDefinitionTargetR j c = some h) : hitNode j h := by
+theorem findDefinitionTargetR_node {lns : List Txt} {j : Journal} {c : Cur} {h : Hit}
+    (hh : findDefinitionTargetR lns j c = some h) : hitNode j h := by
   unfold findDefinitionTargetR at hh
   split at hh
   · rename_i h' hf
@@ -723,8 +723,8 @@ theorem sortAndDedup_sup {α} (l : List (α × LRange)) : ∀ x ∈ l, ∃ y ∈
 
 /-- Every reference location is the conversion of a hit that was computed by column arithmetic
     or carries a range stored in the tree. -/
-theorem referenceHits_node {j : Journal} {t : Hit} {decl : Bool} {h : Hit}
-    (hh : h ∈ referenceHits j t decl) : hitNode j h := by
+theorem referenceHits_node {lns : List Txt} {j : Journal} {t : Hit} {decl : Bool} {h : Hit}
+    (hh : h ∈ referenceHits lns j t decl) : hitNode j h := by
   unfold referenceHits at hh
   split at hh
   · simp only [List.mem_append, List.mem_flatMap, List.mem_map, List.mem_filter] at hh
@@ -766,8 +766,8 @@ theorem referenceHits_node {j : Journal} {t : Hit} {decl : Bool} {h : Hit}
     exact Or.inl rfl
   · simp at hh
 
-theorem payeeSymbols_derived {seen : List Bytes} {txs : List Transaction} {h : Hit}
-    (hh : h ∈ payeeSymbols seen txs) : h.derived = true := by
+theorem payeeSymbols_derived {lns : List Txt} {seen : List Bytes} {txs : List Transaction} {h : Hit}
+    (hh : h ∈ payeeSymbols lns seen txs) : h.derived = true := by
   induction txs generalizing seen with
   | nil => simp [payeeSymbols] at hh
   | cons tx rest ih =>
@@ -779,7 +779,7 @@ theorem payeeSymbols_derived {seen : List Bytes} {txs : List Transaction} {h : H
       · exact ih hh
     · exact ih hh
 
-theorem workspaceSymbolHits_node {j : Journal} {h : Hit} (hh : h ∈ workspaceSymbolHits j) :
+theorem workspaceSymbolHits_node {lns : List Txt} {j : Journal} {h : Hit} (hh : h ∈ workspaceSymbolHits lns j) :
     hitNode j h := by
   simp only [workspaceSymbolHits, List.mem_append, List.mem_filterMap] at hh
   rcases hh with ⟨d, hd, hdd⟩ | hh
@@ -789,10 +789,12 @@ theorem workspaceSymbolHits_node {j : Journal} {h : Hit} (hh : h ∈ workspaceSy
     · simp at hdd
   · exact Or.inl (payeeSymbols_derived hh)
 
-/-- Guard of a located element.  Payee estimates, the two halves of a tag and the `nameRange`s of
+/-- Guard of a located element.  Payee ranges, the two halves of a tag and the `nameRange`s of
     definition / references / rename / workspace symbols are computed by column arithmetic, not
     stored in the tree: the guard asks that the computed rune columns be positions of the text
-    (this is what fails when a code, extra blanks or `payee | note` surround the payee).  The
+    (for a payee it holds on every header of the grammar: `HL.Props.C08.payeeRange_lexSound`;
+    it failed under the estimate of the tree as pinned whenever a code, a secondary date or
+    extra blanks preceded the payee).  The
     commodity of a `commodity` / `P` directive carries the range stored in the tree when the
     parser recorded its End (fix-quoted-commodity-directive.diff), and is computed from the symbol
     otherwise.  Every other element carries a range of the tree and only needs an End.  Nothing is asked about the characters that
@@ -1049,5 +1051,82 @@ theorem commentFoldsFrom_in (fx : Fixes) (ls : List Txt) (i : Nat) (start : Opti
       rcases hf with hf | hf
       · exact closeBlock_in (by simp only [List.length_cons]; omega) f hf
       · rw [← hlen]; exact ih _ _ f hf
+
+/-! ### Helpers for the payee theorems of HL.Props.C08 -/
+
+/-- A line of the client's view is the mapper's line, or the mapper's line without the CR of a
+    CRLF line end. -/
+theorem docLines_lines (doc : Txt) (i : Nat) (ln : Txt) (h : (docLines doc)[i]? = some ln) :
+    ∃ l, (lines doc)[i]? = some l ∧ (l = ln ∨ l = ln ++ ['\r']) := by
+  simp only [docLines, List.getElem?_map, Option.map_eq_some_iff] at h
+  obtain ⟨l, hl, hs⟩ := h
+  refine ⟨l, hl, ?_⟩
+  unfold stripCR at hs
+  split at hs
+  · rename_i hcr
+    right
+    rw [← hs]
+    have hne : l ≠ [] := by intro e; simp [e] at hcr
+    have := List.dropLast_concat_getLast hne
+    rw [List.getLast?_eq_some_getLast hne] at hcr
+    simp only [Option.some.injEq] at hcr
+    rw [hcr] at this
+    exact this.symm
+  · left; exact hs
+
+theorem findTag_kind {tags : List Tag} {c : Cur} {h : Hit} (hh : findTagAtPosition tags c = some h) :
+    h.kind ≠ .payee := by
+  unfold findTagAtPosition at hh
+  split at hh
+  · simp at hh
+  · simp only at hh
+    split at hh <;> (simp at hh; subst hh; simp)
+
+theorem hoverPosting_kind {c : Cur} {p : Posting} {h : Hit} (hh : hoverPosting c p = some h) :
+    h.kind ≠ .payee := by
+  unfold hoverPosting at hh
+  split at hh
+  · simp at hh; subst hh; simp
+  · split at hh
+    · split at hh
+      · simp at hh; subst hh; simp
+      · exact findTag_kind hh
+    · exact findTag_kind hh
+
+theorem commodityAt_kind {c : Cur} {cm : Commodity} {h : Hit} (hh : commodityAt c cm = some h) :
+    h.kind ≠ .payee := by
+  unfold commodityAt at hh
+  split at hh
+  · simp at hh; subst hh; simp
+  · simp at hh
+
+theorem defPosting_kind {c : Cur} {p : Posting} {h : Hit} (hh : defPosting c p = some h) :
+    h.kind ≠ .payee := by
+  unfold defPosting at hh
+  split at hh
+  · simp at hh; subst hh; simp
+  · obtain ⟨cm, _, hc⟩ := List.exists_of_findSome?_eq_some hh
+    exact commodityAt_kind hc
+
+theorem defDirective_kind {c : Cur} {d : Directive} {h : Hit} (hh : defDirective c d = some h) :
+    h.kind ≠ .payee := by
+  cases d with
+  | account a tags cmt sub r =>
+    simp only [defDirective] at hh
+    split at hh
+    · simp at hh; subst hh; simp
+    · simp at hh
+  | commodity cm f n sub r =>
+    simp only [defDirective] at hh
+    split at hh
+    · simp at hh; subst hh; simp [directiveCommodityHit]
+    · simp at hh
+  | price dt cm p r =>
+    simp only [defDirective] at hh
+    split at hh
+    · simp at hh; subst hh; simp [directiveCommodityHit]
+    · exact commodityAt_kind hh
+  | year y r => simp [defDirective] at hh
+  | defaultCommodity sy f r => simp [defDirective] at hh
 
 end HL.Lemmas.Ranges
